@@ -40,6 +40,7 @@ type Profile struct {
 	AnyBytesTime    bool // any / []byte / time.Time in fields and results
 	NestedSlices    bool
 	MutualRecursion bool
+	AllRules        bool // draw validators from every rule either converter understands (C11)
 }
 
 var verbs = []string{"GET", "POST", "PUT", "DELETE", "PATCH"}
@@ -424,7 +425,42 @@ func (g *gen) fieldType(structIdx int) T {
 func isIntPrim(n string) bool   { return strings.HasPrefix(n, "int") || strings.HasPrefix(n, "uint") }
 func isFloatPrim(n string) bool { return strings.HasPrefix(n, "float") }
 
+var allRulePool = []string{"email", "uuid", "ip", "ipv4", "ipv6", "hostname", "date", "datetime", "gt=3", "gte=-2", "lt=99", "lte=100.5", "min=1", "max=64", "len=8",
+	"pattern=^[a-z]+$", "minItems=1", "maxItems=9", "uniqueItems=true", "enum=a|b|c", "oneof=x y z", "oneof=1 2 3", "required", "gt=0.5", "min=0", "max=0"}
+
+// richValidator draws 1-3 well-formed rules from the full catalogue, applicable to the type or not.
+func (g *gen) richValidator() string {
+	n := 1 + g.r.Intn(3)
+	seen := map[string]bool{}
+	var rules []string
+	for i := 0; i < n; i++ {
+		r := g.pick(allRulePool)
+		name := strings.SplitN(r, "=", 2)[0]
+		// one rule per bound: OpenAPI 3.0 has a single maximum/minimum slot, so "max=64,lt=99"
+		// cannot be expressed there at all (input-language restriction, DESIGN §3 rule 5)
+		group := map[string]string{"lt": "upper", "lte": "upper", "max": "upper", "len": "upper", "gt": "lower", "gte": "lower", "min": "lower", "enum": "enum", "oneof": "enum"}[name]
+		if group == "" {
+			group = name
+		}
+		if name == "len" && seen["lower"] {
+			continue
+		}
+		if seen[name] || seen[group] {
+			continue
+		}
+		seen[name], seen[group] = true, true
+		if name == "len" {
+			seen["lower"] = true
+		}
+		rules = append(rules, r)
+	}
+	return strings.Join(rules, ",")
+}
+
 func (g *gen) fieldValidator(t T) string {
+	if g.prof.AllRules && g.chance(0.7) {
+		return g.richValidator()
+	}
 	b := t.Deref()
 	var rules []string
 	if g.chance(0.5) {
@@ -601,6 +637,9 @@ func (g *gen) simpleParamType(in string) T {
 }
 
 func (g *gen) paramValidator(t T) string {
+	if g.prof.AllRules && g.chance(0.7) {
+		return g.richValidator()
+	}
 	b := t.Deref()
 	if b.K != "prim" {
 		return ""
